@@ -282,7 +282,7 @@ def printed_json(out, keep=None):
     return res, n
 
 
-def model_check(work, module, consts, invariants=(), props=(), workers=None, timeout=1800, export=False, name=None,
+def model_check(work, module, consts, invariants=(), props=(), workers=None, timeout=3600, export=False, name=None,
                 constraint=None, view=None, extra=None, spec="Spec", keep=None):
     """exhaustive TLC run of an MC_* module; the spec must satisfy its invariants, otherwise
     the machinery itself is broken (inconclusive, never a verdict about the code)"""
